@@ -63,7 +63,7 @@ def run_batched(cases, judge, label=None, key=None, sig=None, strict_batch=False
             v = sv[0]
             if v is None:
                 out["outcomes"]["ok-alone-only"] = out["outcomes"].get("ok-alone-only", 0) + 1
-                if strict_batch:
+                if strict_batch(c) if callable(strict_batch) else strict_batch:
                     i = cases.index(c)
                     bv = verdicts[i]
                     out["violations"].append({"case": {"batch": cases, "index": i}, "what": "only-next-to-other-sites:" + bv[0],
